@@ -45,21 +45,45 @@ def main():
             m_p = re.search(r"-p\s+([\w\-]+)", how)
             m_t = re.search(r"--test\s+([\w\-]+)", how)
             demo_src = "%s/demo_%d.rs" % (d, k)
-            if not (m_dst and m_p and m_t and os.path.exists(demo_src)):
+            m_app = re.search(r"`mod test`.*?(?: in | of )([\w\-/\.]+\.rs).*?cargo test --offline -p ([\w\-]+) (\w+)", how, re.S)
+            append_to = None
+            if not (m_dst and m_p and m_t) and m_app and os.path.exists(demo_src):
+                # the demonstration is a #[test] to be appended inside the crate's own `mod test`
+                append_to, crate, tname = m_app.group(1), m_app.group(2), m_app.group(3)
+                dst = append_to
+            elif not (m_dst and m_p and m_t and os.path.exists(demo_src)):
                 print("%s-%d: cannot interpret demo instructions: %s" % (pid, k, how)); continue
-            dst, crate, tname = m_dst.group(1), m_p.group(1), m_t.group(1)
+            else:
+                dst, crate, tname = m_dst.group(1), m_p.group(1), m_t.group(1)
             reset()
-            os.makedirs(os.path.join(WT, os.path.dirname(dst)), exist_ok=True)
-            shutil.copy(demo_src, os.path.join(WT, dst))
-            cmd = "cargo test --offline -p %s --test %s 2>&1 | tail -40" % (crate, tname)
+
+            def place_demo():
+                if append_to:
+                    src_ = open(os.path.join(WT, append_to)).read().rstrip()
+                    assert src_.endswith("}")
+                    open(os.path.join(WT, append_to), "w").write(src_[:-1] + "\n" + open(demo_src).read() + "\n}\n")
+                else:
+                    os.makedirs(os.path.join(WT, os.path.dirname(dst)), exist_ok=True)
+                    shutil.copy(demo_src, os.path.join(WT, dst))
+
+            place_demo()
+            cmd = ("cargo test --offline -p %s %s 2>&1 | tail -40" % (crate, tname)) if append_to else ("cargo test --offline -p %s --test %s 2>&1 | tail -40" % (crate, tname))
             rc0, o0 = sh(cmd)
             clean_pass = "test result: ok" in o0 and "FAILED" not in o0
+            if append_to:
+                reset()
             rc, o = sh("git apply %s/patch_%d.diff" % (d, k))
             if rc != 0:
                 print("%s-%d: patch does not apply: %s" % (pid, k, o[-300:])); reset(); continue
+            if append_to:
+                place_demo()
             rc1, o1 = sh(cmd)
             patched_fail = ("FAILED" in o1 or "panicked" in o1 or "overflowed its stack" in o1 or "signal: " in o1) and "error[E" not in o1 and "could not compile" not in o1
-            os.remove(os.path.join(WT, dst))
+            if append_to:
+                sh("git checkout -q -- %s" % append_to)
+                sh("git apply %s/patch_%d.diff" % (d, k))
+            else:
+                os.remove(os.path.join(WT, dst))
             rc2, o2 = sh("cargo nextest run --workspace --no-fail-fast --tool-config-file pb:/w/lib/nextest.toml --profile pb --test-threads 12 --offline 2>&1 | tail -15", timeout=7200)
             msum = re.search(r"(\d+) tests run: (\d+) passed.*?(\d+) failed", o2)
             suite_ok = bool(msum) and int(msum.group(2)) >= 564 and int(msum.group(3)) <= 1 and ("ssao_bias" in o2 or int(msum.group(3)) == 0)
@@ -84,7 +108,7 @@ def main():
             if verdict:
                 os.makedirs(out, exist_ok=True)
                 shutil.copy("%s/patch_%d.diff" % (d, k), os.path.join(out, "patch.diff"))
-                shutil.copy(demo_src, os.path.join(out, os.path.basename(dst)))
+                shutil.copy(demo_src, os.path.join(out, "demo_append.rs" if append_to else os.path.basename(dst)))
                 meta["confirmed"] = {
                     "by": "tools/confirm_seed.py in a scratch worktree of /repo HEAD",
                     "demo_placed_at": dst,
